@@ -343,7 +343,8 @@ class CSSSerializer:
         if self.prefs.defaultAtKeyword:
             return rule.atkeyword  # default
         else:
-            return rule._keyword
+            # only rules set via the ``atkeyword`` property keep the literal
+            return getattr(rule, '_keyword', rule.atkeyword)
 
     def _indentblock(self, text, level):
         """
